@@ -52,6 +52,11 @@ CLAIMED = {
     'C12': ('Bounded model checking of the interval dynamic programme optimalPartition (and its wiring through optimalSegmentation) on a fully symbolic '
             'cost matrix: on every path the returned partition is proved optimal against all 2^(N-2) enumerated partitions, for both directions.',
             'DESIGN.md#c12', 'N <= 5 candidates fully explored (thorough: N = 6 under budget); costs in [0,100]', ''),
+    'C14': ('PARTIAL (algebraic sub-claims only). Bounded model checking of the frame rotations and of the forward ellipsoid formula through the real methods with sin / cos / atan2 as uninterpreted, '
+            'memoised functions plus the circle identity: ECEF -> ENU(base) -> ECEF(base) and ENU -> ECEF(base) -> ENU(base) proved to be the identity for every point and every (ECEF or geographic) base; '
+            'the base maps to (0,0,0); GeoCoords.toECEFCoords proved equal to the closed-form WGS84 expressions for all lon / lat / h; Track.toENUCoords applies the point conversion to every observation '
+            'and records its base. NOT decided: accuracy (1e-9 degree / 1 mm) of the closed-form ECEF -> geographic inverse and of the Lambert-93 iteration, hence the geographic round trips.',
+            'DESIGN.md#c14', 'sub-claims about the accuracy of ECEFCoords.toGeoCoords and of the Lambert-93 projection are not applicable to this technique (transcendental floating-point error analysis) and are outside the claim', ''),
     'C15': ('Bounded model checking of Filter.execute (through operate(FILTER) on a feature and filter_seq on a coordinate) on symbolic signals with enumerated isolated-NaN patterns: '
             'window 3 with three symbolic positive weights, catalogue windows 5 and 7, kernel objects with both boundary settings; per index the output is proved to satisfy '
             'out * sum(w_J) == sum(w_J * x_J) over the in-range non-NaN window positions, boundary values returned unchanged, constants fixed; Kernel.toSlidingWindow of seven built-in kernels with a '
